@@ -295,6 +295,29 @@ pub fn generate(opts: &Opts, sink: &mut CaseSink) {
         let n = if rng.chance(1, 4) { rng.range(1, 30) } else { rng.range(1, 9) } as u64;
         emit_csv(opts, sink, &bytes, header, n);
     }
+    // ---- records / lines LONGER than the readers' buffers (BufReader: 8 KiB; csv crate: 8 KiB):
+    // a few records of 9-20 KB (numbers padded with leading zeros) among short ones, split over
+    // 2..5 replicas so that range boundaries fall inside long records
+    for i in 0..(if opts.thorough { 12 } else { 4 }) {
+        let header = i % 2 == 0;
+        let mut s = String::new();
+        if header { s.push_str("a,b\n"); }
+        let nrec = rng.range(3, 6);
+        for r in 0..nrec {
+            let pad = if rng.chance(1, 2) { rng.range(8500, 20000) as usize } else { rng.range(0, 30) as usize };
+            s.push_str(&format!("{}{},{}\n", "0".repeat(pad), r + 1, rng.below(50)));
+        }
+        let n = rng.range(2, 5) as u64;
+        sink.count("csv_long_records");
+        emit_csv(opts, sink, s.as_bytes(), header, n);
+        let mut t = String::new();
+        for r in 0..nrec {
+            let pad = if rng.chance(1, 2) { rng.range(8500, 20000) as usize } else { rng.range(0, 30) as usize };
+            t.push_str(&format!("{}{}\n", "x".repeat(pad), r));
+        }
+        sink.count("file_long_lines");
+        emit_file(opts, sink, t.as_bytes(), n);
+    }
     // ---- non-parallel sources
     for i in 0..(if opts.thorough { 300 } else { 60 }) {
         let len = rng.below(40) as usize;
@@ -303,4 +326,4 @@ pub fn generate(opts: &Opts, sink: &mut CaseSink) {
     }
 }
 
-pub const RULE: &str = "ranges: 10 integer types x boundary-biased (lo,hi,peers) incl. empty, reversed, near type limits, spans up to 2^62, peers up to 200; files: exhaustive byte strings over {a,\\n} up to length 7 (10 thorough) x replicas 1..5 (7) plus random text with CRLF/multibyte/long lines and up to 40 replicas; csv: generated numeric records with/without header, CRLF, empty lines, missing final newline; iterator/channel sources. Non-trivial: >=2 elements/lines/records and >=2 replicas (>=2 items for sequential sources); distinct = distinct case terms";
+pub const RULE: &str = "ranges: 10 integer types x boundary-biased (lo,hi,peers) incl. empty, reversed, near type limits, spans up to 2^62, peers up to 200; files: exhaustive byte strings over {a,\\n} up to length 7 (10 thorough) x replicas 1..5 (7) plus random text with CRLF/multibyte/long lines and up to 40 replicas; csv: generated numeric records with/without header, CRLF, empty lines, missing final newline; csv records and text lines of 9-20 KB (longer than the 8 KiB reader buffers) split over 2..5 replicas; iterator/channel sources. Non-trivial: >=2 elements/lines/records and >=2 replicas (>=2 items for sequential sources); distinct = distinct case terms";
